@@ -1,5 +1,5 @@
 CONSTANTS
-Mode = "opcodes"
+Mode = "operands"
 MaxItems = 2
 Vals = {0, 1, 127, 128, 255, 256, 16383, 16384, 2097151, 2097152, 268435455, 268435456, 2147483647}
 Pads = {1}
